@@ -111,7 +111,7 @@ func runC03(c *Ctx) {
 				}
 			}
 		}
-		c.Check("R3.1", "slot i is filled from definition i", combine.Pos(), nStores >= 2 && okStores, fmt.Sprintf("%d stores into the automaton slice, not all indexed by the range index over s.Definitions", nStores))
+		c.Check("R3.1", "slot i is filled from definition i", combine.Pos(), nStores >= 1 && okStores, fmt.Sprintf("%d stores into the automaton slice, not all indexed by the range index over s.Definitions", nStores))
 	}
 	// back-mapping: stateDefs[f] = append(stateDefs[f], s.Definitions[i]) with i the range index over CombineDFA's second result
 	backOK := false
@@ -534,7 +534,25 @@ func checkLiteralEscapes(c *Ctx) {
 		param := info.Defs[fd.Type.Params.List[0].Names[0]]
 		ast.Inspect(fd.Body, func(n ast.Node) bool {
 			if rs, ok := n.(*ast.RangeStmt); ok {
-				if id, ok := ast.Unparen(rs.X).(*ast.Ident); ok && info.Uses[id] == param {
+				// the parameter itself, its conversion to runes, or a variable holding that conversion
+				x := ast.Unparen(rs.X)
+				if id, ok := x.(*ast.Ident); ok && info.Uses[id] != param {
+					// chars := []rune(value)
+					ast.Inspect(fd.Body, func(m ast.Node) bool {
+						if as, ok := m.(*ast.AssignStmt); ok && len(as.Lhs) == 1 && len(as.Rhs) == 1 {
+							if lid, ok := as.Lhs[0].(*ast.Ident); ok && (info.Defs[lid] == info.Uses[id] || info.Uses[lid] == info.Uses[id]) {
+								x = ast.Unparen(as.Rhs[0])
+							}
+						}
+						return true
+					})
+				}
+				if call, ok := x.(*ast.CallExpr); ok && len(call.Args) == 1 {
+					if tv, ok := info.Types[call.Fun]; ok && tv.IsType() {
+						x = ast.Unparen(call.Args[0])
+					}
+				}
+				if id, ok := x.(*ast.Ident); ok && info.Uses[id] == param {
 					direct = true
 				}
 			}
